@@ -734,7 +734,6 @@ func (self *Value) UnsetByPath(path ...Path) error {
 	var parentValue, address = self.getByPath(path[:l-1]...)
 	if parentValue.IsError() {
 		if parentValue.IsErrNotFound() {
-			print(address)
 			return nil
 		}
 		return parentValue
